@@ -441,4 +441,82 @@ def _enum_class_as_single_predicate(ctx):
             ctx.violation("dump-layout-mismatch:enum-class-predicate", f"name_mapping(M, {kw}): {out!r:.200}, documented {want!r}", {"kw": repr(kw)})
 
 
-DIRECTED = {"enum-class-as-single-predicate": _enum_class_as_single_predicate, "omit-default-unhashable-default": _omit_default_unhashable, "collected-extras-known-branches": _collected_extras_known_branches}
+def _map_reaches_every_descendant(ctx):
+    """A `map` given for a class also lays out its subclasses (the repository's own test_typehint_location pins the direct child; the docs
+    are silent): then it does so at EVERY depth and through every branch of the MRO, and a nearer class overrides a farther one
+    (seeded change: only the direct bases were consulted)."""
+    from dataclasses import dataclass  # noqa: PLC0415
+
+    from adaptix import Retort, name_mapping  # noqa: PLC0415
+
+    @dataclass
+    class Root:
+        id: int
+
+    @dataclass
+    class Child(Root):
+        name: str
+
+    @dataclass
+    class Grand(Child):
+        created_at: int
+
+    @dataclass(kw_only=True)
+    class Mixin:
+        flag: bool = False
+
+    @dataclass
+    class Great(Grand, Mixin):
+        z: int = 0
+    recipe = [name_mapping(Root, map={"id": "ID", "created_at": ("meta", "created")}), name_mapping(Child, map={"name": "NAME"}), name_mapping(Mixin, map={"flag": "FLAG"}),
+              name_mapping(Grand, map={"id": "GrandID"})]
+    r = Retort(recipe=recipe)
+    table = [(Root, Root(1), {"ID": 1}), (Child, Child(1, "n"), {"ID": 1, "NAME": "n"}), (Grand, Grand(1, "n", 5), {"GrandID": 1, "NAME": "n", "meta": {"created": 5}}),
+             (Great, Great(1, "n", 5, 9, flag=True), {"GrandID": 1, "NAME": "n", "meta": {"created": 5}, "FLAG": True, "z": 9})]
+    for cls, obj, doc in table:
+        d, l = attempt(r.dump, obj), attempt(r.load, doc, cls)
+        ctx.evaluated(("map-inheritance", cls.__name__), nontrivial=True)
+        ctx.count("dumps")
+        if d.kind != "ok" or d.value != doc:
+            ctx.violation("dump-layout-mismatch:map-of-an-ancestor", f"{cls.__name__}: dump {d!r:.200}, the maps of its ancestors give {doc!r}", {"class": cls.__name__})
+        if l.kind != "ok" or l.value != obj:
+            ctx.violation("load-layout-mismatch:map-of-an-ancestor", f"{cls.__name__}: load of {doc!r} gave {l!r:.200}", {"class": cls.__name__})
+
+
+def _omit_default_of_empty_factories(ctx):
+    """'omit_default removes exactly the fields whose value EQUALS their default': a field whose default factory makes something empty
+    (list, dict, str, bytes, tuple) and whose type admits OTHER falsy values - None, 0, False, '' - keeps those (seeded change: the sieve
+    of such fields became plain truthiness); and the round trip gives the object back."""
+    import typing as t  # noqa: PLC0415
+    from dataclasses import dataclass, field  # noqa: PLC0415
+
+    from adaptix import DebugTrail, Retort, name_mapping  # noqa: PLC0415
+
+    from dataclasses import make_dataclass  # noqa: PLC0415
+    F = make_dataclass("F", [("ident", int), ("tags", t.Optional[t.List[str]], field(default_factory=list)), ("nums", t.Union[int, t.List[int]], field(default_factory=list)),
+                             ("anyd", t.Any, field(default_factory=dict)), ("text", t.Optional[str], field(default_factory=str)),
+                             ("pair", t.Union[bool, t.Tuple[int, ...]], field(default_factory=tuple))])
+    values = {"tags": [None, [], ["a"]], "nums": [0, [], [0], 5], "anyd": [False, 0, "", None, {}, {"k": 1}], "text": [None, "", "x"], "pair": [False, (), (0,)]}
+    defaults = {"tags": [], "nums": [], "anyd": {}, "text": "", "pair": ()}
+    for dt in DebugTrail:
+        r = Retort(debug_trail=dt, recipe=[name_mapping(F, omit_default=True)])
+        for name, vals in values.items():
+            for v in vals:
+                obj = F(1, **{name: v})
+                d = attempt(r.dump, obj)
+                is_default = type(v) is type(defaults[name]) and v == defaults[name]
+                ctx.evaluated(("omit-default-empty-factory", name, repr(v), dt.name), nontrivial=True)
+                ctx.count("dumps")
+                info = {"field": name, "value": repr(v), "mode": dt.name}
+                if d.kind != "ok":
+                    ctx.violation(f"dump-crash:omit-default-empty-factory:{type(d.exc).__name__}", f"{name}={v!r}: {d.exc!r:.120}", info)
+                    continue
+                if (name in d.value) == is_default:
+                    ctx.violation("dump-layout-mismatch:omit-default-of-an-empty-factory", f"omit_default, {name}={v!r} (default {defaults[name]!r}): dumped {d.value!r}", info)
+                    continue
+                back = attempt(r.load, d.value, F)
+                if back.kind != "ok" or back.value != obj or type(getattr(back.value, name)) is not type(v if not isinstance(v, tuple) else ()):
+                    ctx.violation("round-trip-lost:omit-default-of-an-empty-factory", f"{obj!r} -> {d.value!r} -> {back!r:.160}", info)
+
+
+DIRECTED = {"omit-default-of-empty-factories": _omit_default_of_empty_factories, "map-reaches-every-descendant": _map_reaches_every_descendant, "enum-class-as-single-predicate": _enum_class_as_single_predicate, "omit-default-unhashable-default": _omit_default_unhashable, "collected-extras-known-branches": _collected_extras_known_branches}
